@@ -185,6 +185,81 @@ def judge(run, job, r, base, units):
             run.violation(key + f'|tally-{k}', f'tally {k}: reported {r["tally"].get(k)} expected {v} (tally={r["tally"]})', rep)
 
 
+def cli_run(job):
+    """One real command-line run (real pathos ParallelPool for threads > 1) on the unit inputs plus, optionally, a record
+    that fails by itself inside its unit: a circRNA record filed under another gene (KeyError in call_peptide_circ_rna)."""
+    bad, skip, threads = job
+    small, fus, circ, units = build_input()
+    d = vlib.worker_dir() / f'c07cli'
+    d.mkdir(exist_ok=True)
+    ref = panel.get(REF)
+    if bad:
+        tx = TXS[0]
+        other = ref.gene_of[TXS[1]]['gene_id']
+        ex = ref.exons_gene(tx)
+        circ = circ + [refgen.circ_line(other, tx, [ex[1]], f'CIRC-{tx}-{ex[1][0]}:{ex[1][1]}')]
+    refgen.write_gvf(d / 'v.gvf', small)
+    refgen.write_gvf(d / 'f.gvf', fus, 'parseSTARFusion', 'Fusion')
+    refgen.write_gvf(d / 'c.gvf', circ, 'parseCIRCexplorer', 'circRNA')
+    out = d / 'o.fasta'
+    for p in (out, d / 'o_peptide_table.txt'):
+        if p.exists():
+            p.unlink()
+    rd = E.ref_dir(REF)
+    argv = [sys.executable, '-m', 'moPepGen.cli', 'callVariant', '-i', str(d / 'v.gvf'), str(d / 'f.gvf'), str(d / 'c.gvf'),
+            '-o', str(out), '--threads', str(threads)] + [str(x) for x in drive.ref_argv(rd)] + \
+        [str(x) for x in drive.cleavage_argv(exception=None)]
+    if skip:
+        argv.append('--skip-failed')
+    import subprocess
+    p = subprocess.run(argv, capture_output=True, text=True, timeout=600)
+    txt = p.stdout + p.stderr
+    pairs = None
+    if out.exists():
+        pairs = sorted((s_, e.rsplit('|', 1)[0]) for h, s_ in drive.read_fasta(out) for e in h.split(' '))
+    m = re.search(r'circRNA peptides: (\d+)', txt)
+    return dict(rc=p.returncode, pairs=pairs, circ_tally=int(m.group(1)) if m else None, tail=txt[-600:])
+
+
+def part_cli(run):
+    jobs = [(bad, skip, t) for bad in (False, True) for skip in (False, True) for t in (1, 2, 3)]
+    res = vlib.pmap(cli_run, jobs, jobs=min(run.jobs, 6), chunk=1)
+    errs = vlib.harness_errors(res)
+    if errs:
+        raise RuntimeError(errs[0])
+    byjob = dict(zip(jobs, res))
+    base = byjob[(False, False, 1)]
+    if base['rc'] != 0 or not base['pairs']:
+        raise RuntimeError(f'CLI base run unusable: rc={base["rc"]} {base["tail"]}')
+    seqs = lambda r: sorted({s_ for s_, _ in r['pairs']}) if r['pairs'] is not None else None
+    nt = 0
+    for (bad, skip, t), r in byjob.items():
+        key = f'cli/bad={int(bad)}/skip={int(skip)}/threads={t}'
+        rep = dict(kind='cli', bad=bad, skip=skip, threads=t)
+        if not bad:
+            if r['rc'] != 0 or seqs(r) != seqs(base):
+                run.violation(key + '|differs-from-base', f'fault-free CLI run differs from threads=1: rc={r["rc"]} {r["tail"][-200:]}', rep)
+            continue
+        nt += 1
+        if not skip:
+            if r['rc'] == 0:
+                run.violation(key + '|no-abort', f'a circRNA unit failed inside its worker but the command exited 0 '
+                              f'(FASTA written: {r["pairs"] is not None}, {len(r["pairs"] or [])} entries)', rep)
+            elif r['pairs'] is not None:
+                run.violation(key + '|fasta-after-abort', 'the command aborted but left an output FASTA', rep)
+        else:
+            if r['rc'] != 0:
+                run.violation(key + '|aborted', f'--skip-failed run exited {r["rc"]}: {r["tail"][-300:]}', rep)
+            else:
+                if seqs(r) != seqs(base):
+                    a, b = set(seqs(base)), set(seqs(r) or [])
+                    run.violation(key + '|output-differs', f'peptides of the other units changed: lost {sorted(a - b)[:4]} extra {sorted(b - a)[:4]}', rep)
+                if r['circ_tally'] != 1:
+                    run.violation(key + '|tally-circ', f'circRNA failures reported: {r["circ_tally"]}, expected 1', rep)
+    run.block('real-pool-cli', len(jobs), nt, True, threads='1,2,3', failing_record='circRNA record filed under another gene')
+    return len(jobs)
+
+
 def main():
     run = vlib.Run('C07', 'fault_enumeration', __doc__)
     small, fus, circ, units = build_input()
@@ -227,6 +302,8 @@ def main():
     run.rule = (f'{len(units)} units (main / fusion / circRNA of 3 transcripts); every fault set with <= {kmax} failing units x '
                 '--skip-failed on/off x threads 1 (and 3 with an ordered pool stub); plus a malformed record; '
                 'non-trivial = at least one failing unit has peptides in the fault-free run.')
+    if run.want('cli'):
+        part_cli(run)
     run.sample(dict(units=[list(u) for u in units], example_fault=[list(units[0]), list(units[1])]))
     run.assume('faults are injected at the entry of call_peptide_main / call_peptide_fusion / call_peptide_circ_rna')
     run.finish()
